@@ -141,7 +141,8 @@ pub fn body_facts<'tcx>(tcx: TyCtxt<'tcx>, ldid: LocalDefId, adts: &mut AdtColle
 fn body_facts_inner<'tcx>(tcx: TyCtxt<'tcx>, ldid: LocalDefId, adts: &mut AdtCollector) -> J {
 	let did = ldid.to_def_id();
 	let dk = tcx.def_kind(did);
-	let body: &Body<'tcx> = tcx.optimized_mir(did);
+	let is_item_const = matches!(dk, DefKind::Const { .. } | DefKind::Static { .. });
+	let body: &Body<'tcx> = if is_item_const { tcx.mir_for_ctfe(did) } else { tcx.optimized_mir(did) };
 	let cx = Cx { tcx, body, did, tenv: TypingEnv::post_analysis(tcx, did) };
 
 	let mut o = J::obj();
@@ -159,6 +160,9 @@ fn body_facts_inner<'tcx>(tcx: TyCtxt<'tcx>, ldid: LocalDefId, adts: &mut AdtCol
 			.map(|c| J::s(c.to_symbol().to_string()))
 			.collect();
 		o.put("upvars", J::Arr(ups));
+	} else if is_item_const {
+		o.put("unsafe_fn", J::Bool(false));
+		o.put("ret_ty", J::s(ty_str(body.local_decls[mir::RETURN_PLACE].ty)));
 	} else {
 		o.put("vis", J::s(format!("{:?}", tcx.visibility(did))));
 		let sig = tcx.fn_sig(did).instantiate_identity().skip_norm_wip().skip_binder();
